@@ -30,9 +30,13 @@ def synthetic(draw, tier):
     v = st.integers(lo, hi)
     # topology names are arbitrary labels: strings, ints, None, values that print alike (2 and "2"), and objects that
     # compare by identity (encoded as {"obj": k}; one instance per k and case)
-    pool = G.NAME_POOL + [2, "2", None, "None", 0, "0", {"obj": 1}, {"obj": 2}]
+    # ... and names that are containers themselves ({"tup": [...]} stands for a tuple, {"fs": [...]} for a frozenset)
+    pool = G.NAME_POOL + [2, "2", None, "None", 0, "0", {"obj": 1}, {"obj": 2},
+                          {"tup": ["clique", 2]}, {"tup": ["clique", 3]}, {"tup": []}, {"tup": ["a"]}, {"fs": [1, 2]}]
     rows = draw(st.lists(st.tuples(v, v, st.sampled_from(pool), st.integers(0, 6)), max_size=15))
     return {"synthetic": True, "N": N, "jds": jds, "rows": [list(r) for r in rows],
+            # read-only queries on the converted network between the two conversions
+            "queries": draw(st.sampled_from([False, False, True])),
             "debug_logging": draw(st.sampled_from([False, False, False, True]))}
 
 
@@ -101,7 +105,14 @@ def check(case):
 
             def __repr__(self):
                 return f"<Label {self.k}>"
-        nm = lambda n: objs.setdefault(n["obj"], Label(n["obj"])) if isinstance(n, dict) else n
+        def nm(n):
+            if not isinstance(n, dict):
+                return n
+            if "tup" in n:
+                return tuple(n["tup"])
+            if "fs" in n:
+                return frozenset(n["fs"])
+            return objs.setdefault(n["obj"], Label(n["obj"]))
         el.topologies = [nm(n) for _, _, n, _ in case["rows"]]
         el.motif_id = [i for _, _, _, i in case["rows"]]
         classes = {"synthetic"}
@@ -163,6 +174,13 @@ def check(case):
         classes.add("isolated_vertex")
     # ---- backward
     snap = snapshot(Gx)
+    if case.get("queries"):
+        # asking the network object questions (its cliques, whether it has edges) changes nothing
+        call("query-find_cliques", lambda: list(net.find_cliques()))
+        call("query-has_edges", net.has_edges)
+        if snapshot(Gx) != snap:
+            raise Violation("query-mutates-network", f"find_cliques() / has_edges() modified the converted network: {snap} -> {snapshot(Gx)}")
+        classes.add("queried_between_conversions")
     with debug_logging(dbg):
         back = call("backward", NetworkToEdgeList.convert, net)
     if snapshot(Gx) != snap:
@@ -171,9 +189,10 @@ def check(case):
         raise Violation("bwd-jds", f"reverse conversion joint_degrees {back.joint_degrees} != {jds}")
     if not (len(back.edge_list) == len(back.topologies) == len(back.motif_id)):
         raise Violation("bwd-columns", "reverse conversion columns not parallel")
-    got = sorted((sorted(e), n, i) for e, n, i in zip(back.edge_list, back.topologies, back.motif_id))
-    want = sorted((sorted(p), d[NN.TOPOLOGY], d[NN.MOTIF_IDS]) for p, d in
-                  ((tuple(p) if len(p) == 2 else tuple(p) * 2, d) for p, d in snap[1].items()))
+    rk = lambda t: (t[0], repr(t[1]), repr(t[2]))
+    got = sorted(((sorted(e), n, i) for e, n, i in zip(back.edge_list, back.topologies, back.motif_id)), key=rk)
+    want = sorted(((sorted(p), d[NN.TOPOLOGY], d[NN.MOTIF_IDS]) for p, d in
+                   ((tuple(p) if len(p) == 2 else tuple(p) * 2, d) for p, d in snap[1].items())), key=rk)
     if got != want:
         raise Violation("bwd-edge-set", f"reverse conversion rows {got} != annotated network edges {want}")
     # ---- round trip
